@@ -22,15 +22,10 @@ func init() {
 type auditEntry struct{ fn, pat, reason string }
 
 var c01Audited = []auditEntry{
-	{"readByte", "d.bytes.buf[*d.bytes.i]", "relational invariant 0 <= i < j <= len(buf): the loop above is left only when i != j; fill resets i = 0 and sets j = n <= end <= len(buf); i advances only over bytes handed out"},
-	{"readFull", "d.bytes.buf[*d.bytes.i:*d.bytes.j]", "same invariant 0 <= i <= j <= len(buf)"},
-	{"readFull", "[call[dynamic:copy", "p[n:] with n the result of copy(p, ...): 0 <= n <= len(p) by the builtin's contract"},
-	{"fill", "d.bytes.buf[*d.bytes.i:", "i == j == 0 was just stored; end = min(len(buf), limit-n) >= 1 behind the n == limit guard (n <= limit by the cap and the counting rule, C10)"},
 }
 
 var c01AuditedPanics = map[string]string{
 	"decode":          "pre-CRC invariant n == limit: decodeFileData returns nil only through n >= limit (C10-R3) and fill caps n <= limit (C10-R2)",
-	"fill":            "fill is called only when i == j: readByte/skipByte loop on i == j; readFull reaches fill after copy exhausted buf[i:j]",
 	"parseDataFields": "`unknown kind` is dead because every table row has kind 0..4 (C15-2); `known message but not valid` is dead because getMesgAllInvalid returns a valid value for every known number (C15-1)",
 }
 
@@ -261,6 +256,18 @@ func c01Matrix(c *Ctx, r *Report) {
 func c01Census(c *Ctx, r *Report, scope []*ssa.Function, ri *reachInfo) {
 	counts := map[string]int{}
 	total := 0
+	// inductive invariant of the read cursor (fieldinv.go): one obligation per function that stores to it
+	cp := c.cursorProof()
+	for _, fn := range cp.funcs {
+		pre := ""
+		if p := cp.pre[fn]; len(p) > 0 {
+			pre = "; precondition " + strings.Join(p, ", ") + " is required at every call site"
+		}
+		r.check(cp.preserves[fn] == "", "C01-R2-cursor-invariant", fn.Name()+"/preserves", c.pos(fn.Pos()), "0 <= i <= j <= len(buf), n >= 0, n + (j - i) <= limit hold at every return, loop head and call"+pre, fn.Name()+" does not preserve the read-cursor invariant: "+cp.preserves[fn])
+	}
+	r.set("cursor_invariant_functions", len(cp.funcs))
+	r.set("cursor_invariant_paths", cp.nPaths)
+	r.need("functions storing to the read cursor", len(cp.funcs), 4)
 	for _, fn := range scope {
 		bc := c.newBounds(fn)
 		proofs := c.loopProofs(fn, bc)
@@ -336,6 +343,17 @@ func c01Site(c *Ctx, bc *boundsCtx, fn *ssa.Function, b *ssa.BasicBlock, ins ssa
 			}
 		}
 		return "", false
+	}
+	if why, ok := c.cursorProof().sites[ins]; ok {
+		desc := "site"
+		switch n := ins.(type) {
+		case *ssa.Panic:
+			desc = "panic"
+		case ssa.Value:
+			desc = strings.ToLower(strings.TrimPrefix(fmt.Sprintf("%T", n), "*ssa.")) + " " + stripAddrs(pathOf(n))
+		}
+		desc = strings.Replace(strings.Replace(desc, "indexaddr ", "index ", 1), "slice ", "slice ", 1)
+		return desc, "cursor invariant: " + why, true, true
 	}
 	switch n := ins.(type) {
 	case *ssa.Panic:
